@@ -1,9 +1,13 @@
 import GuppyVerif.Spec.C21
 /-! # C21 — Comptime functions agree with regular Guppy functions (partial: operator dispatch)
 
-All domains here are finite tables regenerated from /repo on every run (19 operators × 40 operand
-shapes, 41 mixin methods), so the proofs are complete enumerations closed by `decide`; no unbounded
-quantifier is being approximated. -/
+Every theorem in this file is a **table `decide`**: the domains are finite tables regenerated from /repo on every run
+(19 operators × 40 operand shapes, 41 mixin methods, the acceptance table), so each proof is a complete enumeration;
+no unbounded quantifier is being approximated and none of them is a structural proof.
+What is proved is agreement of the *selection* (implementing type, operator, source operand order) of the two
+dispatch procedures — not agreement of results: that `T.__rop__(r, l)` computes what `T.__op__(l, r)` computes is
+the contract of reflected dunders (C04), assumed here and observed by the probes on the lowered wiring.  Builtins,
+containers, constructors and calls are covered by the harness only. -/
 namespace GuppyVerif.C21
 
 /-- Every operator method of `DunderMixin` delegates to the dunder *of its own name* (in particular each
